@@ -95,6 +95,8 @@ Definition g_rp_ctor (v : pv) : outcome :=
   | _ => match as_pyint v with Some z => if 0 <? z then Ok else Err ValueError | None => Err ValueError end
   end.
 Definition g_identity_fit (k rows : Z) : outcome := if rows <? k then Err ValueError else Ok.
+(* SVD(k).fit(x): the data must support k modes (k <= examples and k <= features) *)
+Definition g_svd_fit (k rows width : Z) : outcome := if (rows <? k) || (width <? k) then Err ValueError else Ok.
 (* matrix_representation / matrix_inverse (n_basis_modes = v) on a basis with [avail] modes *)
 Definition g_basis_modes (fitted : bool) (avail : Z) (v : pv) : outcome :=
   if negb fitted then Err NotFittedError else
